@@ -33,7 +33,7 @@ def shards(tier):
 
 def required_counters(tier):
     return {'judged:rot-membership': 1000, 'judged:rot-class-meta': 100, 'judged:rot-area': 50, 'judged:rot-back': 100, 'judged:rot-params': 100,
-            'judged:rot-original-untouched': 100, 'judged:trans-bbox': 100, 'judged:trans-mask': 100}
+            'judged:rot-original-untouched': 100, 'judged:trans-bbox': 100, 'judged:trans-mask': 100, 'judged:trans-mask-exact': 100}
 
 
 def generate(rng, tier, shard, nshards):
@@ -54,6 +54,13 @@ def generate(rng, tier, shard, nshards):
                    'angle': gen.angle_spec(rng),
                    'q': {'kind': rng.choice(['bbox', 'boundary', 'mixed']), 'form': '1d', 'shape': None, 'dtype': 'float64',
                          'n': rng.choice([33, 120]), 'rs': rng.randrange(2 ** 31)}, 'rs': rng.randrange(2 ** 31)}
+        elif rng.random() < 0.2:
+            # lattice polygons sampled on power-of-two sub-grids: every quantity the kernel forms for a sample lying exactly on an
+            # edge is exact, and no sample can lie within rounding of an edge without lying on it, so translated masks must be
+            # bit-identical (no ambiguity exception)
+            yield {'lane': 'translate-exact-polygon', 'nv': rng.choice([3, 3, 5, 6, 7, 9, 4]), 'q': rng.choice([1, 2, 4]), 'n': rng.choice([1, 2, 4, 8]),
+                   'tx': rng.choice([0, 1, -3, rng.randint(-10 ** 4, 10 ** 4)]), 'ty': rng.choice([1, 0, 7, rng.randint(-10 ** 4, 10 ** 4)]),
+                   'rs': rng.randrange(2 ** 31)}
         else:
             cls = rng.choice(gen.MASKABLE + ['compound'])
             mode = 'center' if (cls == 'compound' or 'Annulus' in cls) else rng.choice(['center', 'subpixels', 'subpixels', 'exact'])
@@ -248,6 +255,27 @@ def run_case(case, obs):
         obs.check(ok, 'rotate-back-does-not-restore', f'{type(region).__name__}: rotate(c, a).rotate(c, -a) changed {why}', 'rot-back')
         return
 
+    if case['lane'] == 'translate-exact-polygon':
+        from regions import PolygonPixelRegion
+        q, nv = case['q'], case['nv']
+        vx = [prng.randint(-20 * q, 20 * q) / q for _ in range(nv)]
+        vy = [prng.randint(-20 * q, 20 * q) / q for _ in range(nv)]
+        if max(vx) == min(vx) or max(vy) == min(vy):
+            return
+        if prng.random() < 0.3:
+            vx, vy = [0.0, 4.0, 0.0][:3] + vx[3:], [0.0, 0.0, 4.0][:3] + vy[3:]      # edges through many sample centres
+        tx, ty = case['tx'], case['ty']
+        r0 = PolygonPixelRegion(PixCoord(vx, vy))
+        r1 = PolygonPixelRegion(PixCoord([x + tx for x in vx], [y + ty for y in vy]))
+        for mode, kw in (('center', {}), ('subpixels', {'subpixels': case['n']})):
+            m0, m1 = r0.to_mask(mode=mode, **kw), r1.to_mask(mode=mode, **kw)
+            same = np.asarray(m0.data).shape == np.asarray(m1.data).shape and bool(np.array_equal(np.asarray(m0.data), np.asarray(m1.data)))
+            obs.check(same, 'translated-lattice-polygon-mask-differs',
+                      f'polygon with vertices on the 1/{q} lattice, {mode} n={case["n"]}: mask changed under integer translation ({tx},{ty})', 'trans-mask-exact')
+            b0, b1 = m0.bbox, m1.bbox
+            obs.check((b1.ixmin, b1.ixmax, b1.iymin, b1.iymax) == (b0.ixmin + tx, b0.ixmax + tx, b0.iymin + ty, b0.iymax + ty),
+                      'translated-bbox-differs', f'lattice polygon: box {b0!r} translated by ({tx},{ty}) became {b1!r}', 'trans-bbox')
+        return
     # translation
     spec = dyadic_region_spec(prng, case['cls'])
     tx, ty = case['tx'], case['ty']
